@@ -970,6 +970,33 @@ def suite_C04(g, tier):
             p.op("Point.SetBytes", r=r, a=["b%d" % k])
             if rng.randrange(3) == 0:
                 p.op("Point.Bytes", r=r, o=["b7"])    # panics if r is still the zero value: also fine (C15)
+    # decode histories: the decision must not depend on what was decoded before (a memo / last-input cache in the decoder).
+    # The same string twice in a row (same buffer, then an equal fresh one), again after other strings, its sign twin right
+    # after it, and rejected / accepted strings alternating -- for rejected, non-canonical, small-order and ordinary strings
+    def off_curve():
+        while True:
+            e = bytes(rng.randrange(256) for _ in range(32))
+            if dec_point(e) is None:
+                return e
+    hist = [(off_curve(), "rejected") for _ in range(3 if tier == "quick" else 40)]
+    hist += [(le(2 | (sg << 255)), "rejected y=2") for sg in (0, 1)] if dec_point(le(2)) is None else []
+    hist += [(e, "noncanon") for e in noncanon_encs()[:(4 if tier == "quick" else 1000)]]
+    hist += [(t, "torsion") for t in TORSION[:(3 if tier == "quick" else 100)]]
+    hist += [(enc_point(*any_point(rng)), "valid") for _ in range(3 if tier == "quick" else 40)]
+    for k, (e, cls) in enumerate(hist):
+        other_bad, other_ok = off_curve(), enc_point(*rand_point(rng))
+        twin = e[:31] + bytes([e[31] ^ 0x80])
+        p = g.new("C04 decode histories (%s)" % cls)
+        prep_receiver(p, "p1", rng, rng.choice(RECV_KINDS))
+        p.buf("b0", e, cap=rng.choice([None, 32, 64]))
+        p.buf("b1", bytes(e))
+        p.buf("b2", other_bad)
+        p.buf("b3", other_ok)
+        p.buf("b4", twin)
+        for bi, r in (("b0", "p0"), ("b0", "p0"), ("b1", "p1"), ("b4", "p2"), ("b0", "p2"), ("b3", "p0"), ("b0", "p1"), ("b2", "p1"), ("b1", "p0"), ("b2", "p2"), ("b2", "p0"), ("b4", "p1"), ("b4", "p0")):
+            p.op("Point.SetBytes", r=r, a=[bi])
+            if rng.randrange(3) == 0:
+                p.op("Point.Bytes", r=r, o=["b7"])
     both_signs_programs(g, tier, "C04")
     # every length
     lens = list(range(0, 34)) + [63, 64, 65, 130]
@@ -2369,9 +2396,38 @@ def suite_C19(g, tier):
     both_signs_programs(g, tier, "C19")
 
 
+def small_operand_programs(g, tier, tag):
+    """one operand with a single non-zero limb holding 2^k, 2^k - 1 or 2^k + 1 (every k up to the limb width, the limb in
+    position 0 and, less often, elsewhere), the other with every limb at the top of the representation invariant: a fast
+    path for 'small' multipliers (or a narrower accumulator) that is exact for reduced limbs only shows here, and only at
+    the one k where its bound sits.  Both operand orders, Multiply and Mult32-free: the products are checked by value."""
+    rng = g.rng
+    tops = [[B0MAX] + [BIMAX] * 4, [2**51] * 5, [2**51 - 1] * 5]
+    for k in range(0, 52):
+        p = g.new("%s single-limb operand 2^%d against limbs at the bound" % (tag, k))
+        n = 0
+        for a in (2**k, 2**k - 1, 2**k + 1):
+            if a >= 2**51 + 2**32 or (a == 0 and k > 0):
+                continue
+            pos = [0] if tier == "quick" and k % 4 else [0, rng.randrange(1, 5)]
+            for ps in pos:
+                la = [0] * 5
+                la[ps] = a
+                bs = tops if tier != "quick" else [tops[0], tops[1 + (k + n) % 2]]
+                for lb in bs + [corner_limbs(rng)]:
+                    p.inject("e0", la)
+                    p.inject("e1", lb)
+                    p.op("Elem.Multiply", r="e2", a=["e0", "e1"])
+                    p.op("Elem.Multiply", r="e3", a=["e1", "e0"])
+                    p.op("Elem.Equal", r="e2", a=["e3"])
+                    p.op("Elem.Bytes", r="e2", o=["b0"])
+                    n += 1
+
+
 def suite_field_programs(g, tier):
     """C20: field-heavy programs, every aliasing pattern of Multiply / Square, corner limbs"""
     rng = g.rng
+    small_operand_programs(g, tier, "C20")
     n = 40 if tier == "quick" else 1500
     for it in range(n):
         p = g.new("C20 field")
